@@ -18,9 +18,9 @@ LEVEL = "exploration"
 BUDGET = {"quick": 300000, "thorough": 6000000}
 RULE = (
     "each run draws 1..3 co-tenant adapter scenarios: any_iter over {plain, awaitable} x {list, iterator, async "
-    "iterator} x {plain, awaitable items} of 0..6 items with consumer steps 0..len+1; await_each over 0..6 logging, "
+    "iterator} x {plain, awaitable items} of 0..6 items with consumer steps 0..len+1 (and up to three further requests after the end, each answered with the end); await_each over 0..6 logging, "
     "suspending awaitables (hand-written awaitables or coroutines) with consumer steps; apply with 0..4 positional "
-    "and 0..3 keyword awaitables; sync over def / async def / partial / callable objects returning or raising. "
+    "and 0..3 keyword awaitables (one may resolve to a coroutine object, which the function must receive untouched); sync over def / async def / partial / callable objects / functools.wraps of the other kind, returning or raising. "
     "Oracle: plain-data reference (the item list, func(*values, **values), f's result or the same exception object, "
     "`sync(f) is f` for coroutine functions) and ordering of the await log against the consumer's requests "
     "(await_each: awaitable i entered only after request i began, never overlapping, nothing beyond the request). "
@@ -29,7 +29,8 @@ RULE = (
 COMPONENTS = COMPONENTS_BASE
 ASSUMPTIONS = ["awaitables log their own entry/exit; items are plain integers tagged per scenario"]
 PROBES = ("apply_same_awaitable_twice", "any_iter_awaitable_outer", "any_iter_awaitable_items", "any_iter_async_iterator", "await_each_partial",
-          "apply_keywords", "sync_coroutine_function_unchanged", "sync_raises", "sync_callable_object", "sync_sometimes_awaitable")
+          "apply_keywords", "sync_coroutine_function_unchanged", "sync_raises", "sync_callable_object", "sync_sometimes_awaitable",
+          "asked_again_after_the_end", "apply_value_is_a_coroutine_object", "sync_wraps_of_the_other_kind")
 
 
 class Aw:
@@ -75,7 +76,7 @@ def make_awaitable(sim, log, name, n, value, coro, exc=None):
 def gen_any_iter(ch):
     sc = {"kind": "any_iter", "outer_aw": ch.draw(2), "container": ch.draw(6), "item_aw": ch.draw(2),
           "n": ch.draw(7), "susp": [ch.draw(3) for _ in range(3)], "coro": ch.draw(3)}
-    sc["steps"] = ch.draw(sc["n"] + 2)
+    sc["steps"] = ch.draw(sc["n"] + 2) if ch.chance(3, 4) else sc["n"] + 1 + ch.between(1, 3)
     return sc
 
 
@@ -151,10 +152,10 @@ async def run_any_iter(sc, sim, res, tag):
         try:
             got.append(await it.__anext__())
         except StopAsyncIteration:
+            # the end is final: asking again gives the end again, however often
             got.append("stop")
-            break
     res["got"] = got
-    res["expected"] = (values + ["stop"])[: sc["steps"]]
+    res["expected"] = (values + ["stop"] * 4)[: sc["steps"]]
     await it.aclose()
     # unconsumed coroutine items would warn when dropped: close them
     for x in items:
@@ -168,7 +169,7 @@ async def run_any_iter(sc, sim, res, tag):
 def gen_await_each(ch):
     sc = {"kind": "await_each", "n": ch.draw(7), "susp": [ch.draw(3) for _ in range(3)], "coro": ch.draw(3),
           "container": ch.draw(2)}
-    sc["steps"] = ch.draw(sc["n"] + 2)
+    sc["steps"] = ch.draw(sc["n"] + 2) if ch.chance(3, 4) else sc["n"] + 1 + ch.between(1, 3)
     return sc
 
 
@@ -200,10 +201,10 @@ async def run_await_each(sc, sim, res, tag):
             got.append(await it.__anext__())
         except StopAsyncIteration:
             got.append("stop")
-            break
+            continue
         log.append(("received", k))
     res["got"] = got
-    res["expected"] = (values + ["stop"])[: sc["steps"]]
+    res["expected"] = (values + ["stop"] * 4)[: sc["steps"]]
     await it.aclose()
     # closing the adapter early must not touch what the consumer never asked for
     asked = min(sc["steps"], sc["n"] + 1)
@@ -248,7 +249,9 @@ def gen_apply(ch):
             # the function: def | async def | partial(async def) | object whose call returns an awaitable -
             # apply returns *the function's result*, which for the last three is an awaitable left to the caller
             # 4: a C-implemented callable without an introspectable signature (max)
-            "func": ch.weighted([6, 2, 2, 2, 1])}
+            "func": ch.weighted([6, 2, 2, 2, 1]),
+            # the value one argument resolves to is itself a coroutine object: a value like any other, handed on untouched
+            "nested": ch.weighted([5, 1, 1])}
 
 
 async def run_apply(sc, sim, res, tag):
@@ -273,6 +276,25 @@ async def run_apply(sc, sim, res, tag):
         pos_vals = [(tag, "shared", i + 1) for i in range(sc["npos"])]
         kw_vals = {k: (tag, "shared", sc["npos"] + j + 1) for j, k in enumerate(kw_vals)}
         res["shared"] = True
+    nested = None
+    if sc.get("nested") and not res.get("shared") and sc.get("func", 0) != 4:
+        async def deep():
+            log.append(("nested_value_was_run",))
+            return (tag, "deep")
+
+        if sc["nested"] == 1 and pos:
+            if hasattr(pos[0], "close"):
+                pos[0].close()
+            nested = pos_vals[0] = deep()
+            pos[0] = make_awaitable(sim, log, ("pos", 0), sc["susp"][0], nested, sc["coro"])
+        elif sc["nested"] == 2 and kws:
+            k0 = next(iter(kw_vals))
+            if hasattr(kws[k0], "close"):
+                kws[k0].close()
+            nested = kw_vals[k0] = deep()
+            kws[k0] = make_awaitable(sim, log, ("kw", k0), sc["susp"][0], nested, sc["coro"])
+        if nested is not None:
+            res["nested"] = True
     fault = InjectedFault("apply")
 
     def func(*args, **kwargs):
@@ -312,6 +334,10 @@ async def run_apply(sc, sim, res, tag):
         res["got"] = ("ok", value)
     except InjectedFault as err:
         res["got"] = ("raised", err is fault)
+    if nested is not None:
+        if ("nested_value_was_run",) in log:
+            res["got"] = ("a coroutine object that was an argument's value has been run by apply", res["got"])
+        nested.close()
     res["expected"] = ("raised", True) if sc["fails"] else ("ok", ("result", tuple(pos_vals), tuple(sorted(kw_vals.items()))))
 
 
@@ -322,7 +348,9 @@ SYNC_FAULTS = (InjectedFault, TypeError, ValueError, KeyError, AttributeError)
 def gen_sync(ch):
     # flavour 6: a plain def that returns an awaitable on some calls and a plain value on others
     # flavours 7/8: an async generator function (and a partial of one): calling it gives an async generator - the result
-    return {"kind": "sync", "flavour": ch.draw(9), "fails": ch.chance(1, 3), "susp": ch.draw(3),
+    # flavour 9: a plain def carrying functools.wraps of a coroutine function (it runs things itself) - a plain callable
+    # flavour 10: an async def carrying functools.wraps of a plain function - a coroutine function
+    return {"kind": "sync", "flavour": ch.draw(11), "fails": ch.chance(1, 3), "susp": ch.draw(3),
             "pattern": [ch.draw(2) for _ in range(ch.between(2, 4))], "fault": ch.draw(len(SYNC_FAULTS))}
 
 
@@ -398,7 +426,16 @@ async def run_sync(sc, sim, res, tag):
             res["got"] = ("raised", repr(err))
         res["expected"] = ("ok", [("r", tag, 1 if fl == 7 else 2)])
         return
-    f = (plain, coro_fn, functools.partial(coro_fn, y=2), Obj(), ObjPlain(), functools.partial(plain, y=2))[fl]
+    @functools.wraps(coro_fn)
+    def plain_wrapping_coro(x, y=1):
+        return plain(x, y)
+
+    @functools.wraps(plain)
+    async def coro_wrapping_plain(x, y=1):
+        return await coro_fn(x, y)
+
+    f = (plain, coro_fn, functools.partial(coro_fn, y=2), Obj(), ObjPlain(), functools.partial(plain, y=2), None, None, None,
+         plain_wrapping_coro, coro_wrapping_plain)[fl]
     wrapped = L.sync(f)
     res["same"] = wrapped is f
     aw = wrapped(tag, **({} if fl in (2, 5) else {"y": 1}))
@@ -409,7 +446,7 @@ async def run_sync(sc, sim, res, tag):
         res["got"] = ("raised", err is fault)
     yv = 2 if fl in (2, 5) else 1
     res["expected"] = ("raised", True) if sc["fails"] else ("ok", ("r", tag, yv))
-    res["expect_same"] = fl in (1, 2)
+    res["expect_same"] = fl in (1, 2, 10)
 
 
 GENS = (gen_any_iter, gen_await_each, gen_apply, gen_sync)
@@ -458,6 +495,8 @@ def execute(st, ctx):
                 out.violate("C19.await_each_not_lazy_or_not_sequential", sig, dict(describe(), why=why))
             if sc["steps"] <= sc["n"] and sc["n"]:
                 out.probes["await_each_partial"] = 1
+            if sc["steps"] > sc["n"] + 1:
+                out.probes["asked_again_after_the_end"] = 1
             if sc["n"]:
                 nontrivial = True
         elif kind == "any_iter":
@@ -468,6 +507,8 @@ def execute(st, ctx):
                     out.violate("C19.any_iter_awaits_ahead_or_overlapping", sig, dict(describe(), why=why))
             if sc["outer_aw"]:
                 out.probes["any_iter_awaitable_outer"] = 1
+            if sc["steps"] > sc["n"] + 1:
+                out.probes["asked_again_after_the_end"] = 1
             if sc["item_aw"] and sc["n"]:
                 out.probes["any_iter_awaitable_items"] = 1
             if sc["container"] == 2:
@@ -479,6 +520,8 @@ def execute(st, ctx):
                 out.probes["apply_keywords"] = 1
             if res.get("shared"):
                 out.probes["apply_same_awaitable_twice"] = 1
+            if res.get("nested"):
+                out.probes["apply_value_is_a_coroutine_object"] = 1
             if sc["npos"] + sc["nkw"]:
                 nontrivial = True
         else:
@@ -492,6 +535,8 @@ def execute(st, ctx):
                 out.fault_free = False
             if sc["flavour"] in (3, 4):
                 out.probes["sync_callable_object"] = 1
+            if sc["flavour"] in (9, 10):
+                out.probes["sync_wraps_of_the_other_kind"] = 1
             if sc["flavour"] == 6 and len(set(sc["pattern"])) == 2:
                 out.probes["sync_sometimes_awaitable"] = 1
             nontrivial = True
